@@ -75,13 +75,15 @@ check("C06",
       "power-of-two eliminated gaps, 1-2 explicit blocks incl. degenerate explicit levels, real and complex, optional "
       "fully_diagonalize on explicit blocks): (a) the explicit twin with the complete eigenbasis, validated by TLC "
       "against the LeastAction reference; (b) the implicit run with only the explicit subspaces (direct solver with "
-      "default options, with sparse perturbations, with explicit solver_options; KPM). TLC (Relations.tla 'basis' with the "
-      "rectangular T = 1 (+) Q_B) requires every block of the implicit run -- explicit blocks, explicit x implicit "
+      "default options, with sparse perturbations, with explicit solver_options; KPM; and NON-HERMITIAN problems h_0 = R D L^dagger "
+      "in integer biorthogonal bases with (R, L) pairs for the explicit blocks and hermitian=False). TLC (Relations.tla "
+      "'basis' with the rectangular T = 1 (+) R_B, T~ = 1 (+) L_B^dagger) requires every block of the implicit run -- explicit blocks, explicit x implicit "
       "arrays and the densified implicit x implicit LinearOperators -- to equal T X T^dagger of the twin at every order.",
       "Trusted: TLC/SANY 1.8.0, Json module, reduction mod p; alpha_snap: direct-solver outputs within 1e-9 of a multiple "
       "of 2^-40, KPM outputs (atol 1e-8, orders<=2) within 400*atol*max(1,|value|) of a multiple of 2^-16 -- instances are built so that "
-      "true values are dyadic with smaller denominators. Hermitian problems only (non-Hermitian implicit mode is "
-      "covered at solver level in C16); KPM convergence is not modelled.",
+      "true values are dyadic with smaller denominators (non-Hermitian runs: 2^-28, their LU rounding is 1e-13..1e-12). "
+      "The non-Hermitian twin is not validated against a reference here (that is C05, with its known finding); KPM "
+      "convergence is not modelled; KPM does not support distinct left and right vectors.",
       "TLA+ relation (embedding of the explicit twin) checked by TLC on paired real runs + reference validation of the twin",
       "DESIGN.md §4 C06")
 check("C07",
@@ -122,13 +124,15 @@ check("C09",
       "pymablock/algorithms.py by the harness's own independent parser, 1-3 blocks, 1-2 parameters, with/without "
       "selections, under the flag settings the library would choose, all-off, and partially off; (ii) generated "
       "well-founded programs in the documented grammar (starts, markers, conditions, sums, /int incl. nested, .adj, "
-      "scope functions on expressions and on series, 2-3 factor products). Every element of every series and product "
+      "scope functions on expressions and on series, 2-3 factor products, start = \"X_0\" with generic zeroth orders); "
+      "(iii) generated programs over TWO inputs run on numpy values, with one diagonal block optionally in "
+      "LINEAR-OPERATOR mode (operators densified), including the second return value (operator views). Every element of every series and product "
       "(outputs, deleted intermediates, products) is requested in a seeded random order, partly twice; TLC "
       "(Trace_Dsl) checks every cell against its defining equation -- a well-founded program has exactly one table that "
       "satisfies them all.",
       "Trusted: TLC/SANY 1.8.0, Json module, the ~90-line parser dsl_parse.py, gf.py. The engine runs in the same field "
-      "TLC computes in (no abstraction). Linear-operator mode is not exercised; bounds: <=3 blocks of size <=3, total "
-      "order <=3.",
+      "TLC computes in (no abstraction); the numpy sessions are exact (small Gaussian integers, dyadic divisors). "
+      "Linear-operator mode only with binary products; bounds: <=3 blocks of size <=3, total order <=3.",
       "TLA+ equational semantics of the DSL as trace-validation oracle (TLC) for the compiled engine run over GF(p^2)",
       "DESIGN.md §4 C09")
 
